@@ -46,6 +46,12 @@ def gen(rng, tier, i):
         sc.net["backend"] = "kernel"
         cname = "kernel"
         Gus = 30_000_000
+        if mode == "ksplice":
+            # splice(2) may move fewer bytes than asked for (full socket buffer): seeded short counts
+            short = rng.choice([0, 50, 400])
+            if short:
+                sc.net["chaos"] = {"short_write": short}
+                cname = "kernel-short"
     bufsz = rng.choice([512, 4096, 65536])
     sc.cfg["ioParams"] = {"bufferSize": bufsz, "useSplice": mode == "ksplice"}
     sc.cfg["timeouts"] = {"idle": 600}
